@@ -233,7 +233,7 @@ def run_check(pid, tier, opts):
         'samples': samples,
         'evaluations': tot['evals'],
         'distinct_nontrivial': tot['nontrivial'],
-        'rule': spec.get('rule', ''),
+        'rule': spec.get('rule', '') + ((' || sequence / history families: ' + spec['rule_more']) if spec.get('rule_more') else ''),
         'exhaustive': (not capped) and not spec.get('truncated'),
         'pool_cases': n, 'pool_cases_done': done,
         'bounds': jsonable(spec.get('bounds', {})),
